@@ -87,7 +87,10 @@ def _topology(sysv):
 
 def _build(sysv, cells, quick, seed):
     import mdtraj as md
-    sc = idn.scatters(sysv, full=not quick)
+    sc0 = idn.scatters(sysv, full=not quick)
+    P = sysv.get("placements") or [None]
+    sc = np.tile(sc0, (len(P), 1, 1))
+    pl = np.repeat(np.arange(len(P)), len(sc0))
     F = len(sc)
     sel = np.arange(F) % 2
     wmin = min(float(np.min(grids.cell_widths(c["vectors"]))) for c in cells)
@@ -95,13 +98,56 @@ def _build(sysv, cells, quick, seed):
     xyz = np.zeros((F, sysv["n"], 3))
     for k, c in enumerate(cells):
         V = c["vectors"]
-        idx = np.where(sel == k)[0]
-        xyz[idx] = idn.base_positions(sysv, V, L, seed)[None] + sc[idx] @ V
+        for p, place in enumerate(P):
+            idx = np.where((sel == k) & (pl == p))[0]
+            xyz[idx] = idn.base_positions(sysv, V, L, seed, place)[None] + sc[idx] @ V
     lengths = np.array([cells[k]["lengths"] for k in sel])
     angles = np.array([cells[k]["angles"] for k in sel])
     t = md.Trajectory(xyz.astype(np.float32), _topology(sysv), time=np.arange(F) * 0.5 + 3.0,
                       unitcell_lengths=lengths, unitcell_angles=angles)
+    sc = np.concatenate([sc.reshape(F, -1), pl[:, None]], axis=1).reshape(F, -1)    # scatter row + placement id
     return t, sc, sel, wmin
+
+
+def _check_find_molecules(n, bonds, order="given"):
+    """-> None or a description of how Topology.find_molecules() differs from the connected components."""
+    top = _topology(dict(n=n, bonds=bonds))
+    try:
+        got = [frozenset(a.index for a in m) for m in top.find_molecules()]
+    except ValueError as e:                      # documented: raised only when there are no bonds at all
+        return None if not bonds else "raised %s" % e
+    want = idn.components(n, bonds)
+    if len(got) != len(set(got)) or set(got) != want:
+        return "find_molecules %s, connected components %s" % (sorted(map(sorted, got)), sorted(map(sorted, want)))
+    return None
+
+
+def run_topologies(quick):
+    """Every labelled simple bond graph on 1..5 atoms, bonds added in sorted and in reversed order."""
+    recs, st = [], _empty_stats()
+    seen = set()
+    for n, edges in idn.all_graphs(5):
+        for order, bl in (("sorted", edges), ("reversed", [(b, a) for a, b in edges[::-1]])):
+            st["evals"] += 1
+            st["topologies"] += 1
+            if len(idn.components(n, bl)) < n and len(idn.components(n, bl)) > 0:
+                seen.add((n, tuple(bl)))
+            bad = _check_find_molecules(n, bl)
+            if bad:
+                up = all(any(a < b for a, b in [e]) for e in bl)
+                recs.append(("find_molecules|not-the-connected-components|graph-enumeration|n=%d" % n,
+                             "bonds %s (%s): %s" % (bl, order, bad),
+                             dict(si=-1, ci=0, quick=quick, seed=0, api="find_molecules", n=n, bonds=bl)))
+    st["nontrivial"] = len(seen)
+    st["sample"] = dict(system="graph-enumeration", api="find_molecules", n=4, bonds=[(0, 3), (1, 3), (2, 3)],
+                        components=[[0, 1, 2, 3]])
+    return recs, st
+
+
+def _empty_stats():
+    return dict(evals=0, nontrivial=0, err=0.0, guess_raised=0, md_inconsistent=0, excluded_ambiguous=0,
+                excluded_illcond=0, anchor_not_rigid_recorded=0, frames=0, sample=None, api_runs=0, tuples_checked=0,
+                topologies=0)
 
 
 def _min_image_rows(disp, V, sel, Rs):
@@ -158,13 +204,14 @@ def run_item(arg):
     si, ci, quick, seed = arg[:4]
     only = arg[4] if len(arg) > 4 else None
     import mdtraj as md
+    if si < 0:
+        return run_topologies(quick)
     sysv = _systems(quick)[si]
     menu = _menu(quick)
     cells = [menu[ci], menu[(ci + 1) % len(menu)]]
     n = sysv["n"]
     recs = []
-    st = dict(evals=0, nontrivial=0, err=0.0, guess_raised=0, md_inconsistent=0, excluded_ambiguous=0,
-              excluded_illcond=0, anchor_not_rigid_recorded=0, frames=0, sample=None, api_runs=0, tuples_checked=0)
+    st = _empty_stats()
 
     t0, sc, sel, wmin = _build(sysv, cells, quick, seed)
     F = t0.n_frames
